@@ -580,9 +580,38 @@ class Gen:
         if k < 82:
             # tuple unpack
             a, b = self.fresh_var(), self.fresh_var()
-            self.emit_line(indent, "%s, %s = %s" % (a, b, e(TIS)))
-            sc.vars.append(Var(a, INT, None))
-            sc.vars.append(Var(b, STR, None))
+            kk = r.randrange(8)
+            if kk < 3:
+                self.emit_line(indent, self.ch(["%s, %s = %s", "(%s, %s) = %s", "[%s, %s] = %s"]) % (a, b, e(TIS)))
+                sc.vars.append(Var(a, INT, None))
+                sc.vars.append(Var(b, STR, None))
+            elif kk == 3:
+                # unpacking a dict binds its keys
+                k1, k2 = r.sample(KEYS, 2)
+                self.emit_line(indent, "%s, %s = {%s: %s, %s: %s}" % (a, b, self.qs(k1), e(INT), self.qs(k2), e(INT)))
+                sc.vars.append(Var(a, STR, None))
+                sc.vars.append(Var(b, STR, None))
+            elif kk == 4:
+                self.emit_line(indent, "%s, %s = {%d: %s, %d: %s}" % (a, b, r.randint(0, 4), e(STR), r.randint(5, 9), e(STR)))
+                sc.vars.append(Var(a, INT, None))
+                sc.vars.append(Var(b, INT, None))
+            elif kk == 5:
+                c = self.fresh_var()
+                self.emit_line(indent, "%s, %s, %s = [%s, %s, %s]" % (a, b, c, e(INT), e(INT), e(INT)))
+                for n_ in (a, b, c):
+                    sc.vars.append(Var(n_, INT, None))
+            elif kk == 6:
+                c = self.fresh_var()
+                self.emit_line(indent, "%s, (%s, %s) = (%s, (%s, %s))" % (a, b, c, e(STR), e(INT), e(STR)))
+                sc.vars.append(Var(a, STR, None))
+                sc.vars.append(Var(b, INT, None))
+                sc.vars.append(Var(c, STR, None))
+            else:
+                # destructuring in a loop / comprehension over dicts binds keys too
+                k1, k2 = r.sample(KEYS, 2)
+                d = "{%s: %s, %s: %s}" % (self.qs(k1), e(INT), self.qs(k2), e(INT))
+                self.emit_line(indent, "%s = [%s + %s for %s, %s in [%s, %s]]" % (a, "ka_", "kb_", "ka_", "kb_", d, d))
+                sc.vars.append(Var(a, LS, self.fresh_group()))
             return
         if k < 86 and sc.loop_depth > 0:
             self.emit_line(indent, "if %s:" % e(BOOL))
